@@ -127,8 +127,8 @@ func (mc *MetricsCollector) RecordResponse(success bool, responseTime time.Durat
 func (mc *MetricsCollector) RecordBackendRequest(backendName string, success bool, responseTime time.Duration) {
 	mc.metrics.mutex.Lock()
 
-	// Check if we're exceeding max backends limit
-	if len(mc.metrics.BackendMetrics) >= MaxBackendMetrics {
+	// Check if we're exceeding max backends limit (only a new name makes the table grow)
+	if _, known := mc.metrics.BackendMetrics[backendName]; !known && len(mc.metrics.BackendMetrics) >= MaxBackendMetrics {
 		mc.metrics.mutex.Unlock()
 		return // Drop metric to prevent unbounded growth
 	}
@@ -165,6 +165,14 @@ func boolToInt(b bool) int {
 		return 1
 	}
 	return 0
+}
+
+// RemoveBackend forgets the metrics of a backend that has been removed from the balancer
+func (mc *MetricsCollector) RemoveBackend(backendName string) {
+	mc.metrics.mutex.Lock()
+	defer mc.metrics.mutex.Unlock()
+
+	delete(mc.metrics.BackendMetrics, backendName)
 }
 
 // UpdateBackendHealth updates the health status of a backend
